@@ -334,6 +334,10 @@ def rule_unwrap_order(ctx: Ctx) -> None:
     v = rets[0].value
     rev = (isinstance(v, _ast.Subscript) and isinstance(v.slice, _ast.Slice) and v.slice.step is not None and _norm(v.slice.step) == "-1"
            and v.slice.lower is None and v.slice.upper is None) or (isinstance(v, _ast.Call) and _norm(v.func) in ("list",) and v.args and isinstance(v.args[0], _ast.Call) and _norm(v.args[0].func) == "reversed")
+    if not rev and isinstance(v, _ast.Call) and v.args and any(isinstance(x, _ast.Subscript) and isinstance(x.slice, _ast.Slice) and x.slice.step is not None
+                                                                  and _norm(x.slice.step) == "-1" for x in _ast.walk(v)):
+        # the reversed list goes through a post-processing call before it is returned: whether that call keeps the product is its own question
+        raise AnalysisError(f"OneQubitGateWrapper.unwrap: the reversed list is post-processed by `{_short(v.func)}` before it is returned; not decided")
     if not rev:
         bad.append(f"unwrap returns `{_short(v)}`: the product-ordered list must be reversed into application order")
     gl = _norm(v.value) if isinstance(v, _ast.Subscript) else None
@@ -355,11 +359,31 @@ def rule_unwrap_order(ctx: Ctx) -> None:
     elif gl is not None:
         raise AnalysisError("OneQubitGateWrapper.unwrap: the placement of the wrapper-level noise was not found")
     comps = [c for c in _ast.walk(fn) if isinstance(c, _ast.ListComp)]
+    # every operation unwrap builds sits on the wrapper's own register: register and reg_type are both taken from self (a constructor
+    # called without reg_type falls back to the default 'e', which puts a photonic wrapper's gate / noise carrier on an emitter)
+    for call in [x for x in _ast.walk(fn) if isinstance(x, _ast.Call) and any(k.arg == "noise" for k in x.keywords)
+                 and (isinstance(x.func, _ast.Subscript) or (isinstance(x.func, _ast.Name) and x.func.id[:1].isupper()) or isinstance(x.func, _ast.Name))]:
+        kws = {k.arg: _norm(k.value) for k in call.keywords}
+        pos = [_norm(a) for a in call.args]
+        reg_ok = kws.get("register") == "self.register" or (pos[:1] == ["self.register"])
+        typ_ok = kws.get("reg_type") == "self.reg_type" or (pos[1:2] == ["self.reg_type"])
+        if not (reg_ok and typ_ok):
+            bad.append(f"`{_short(call, 70)}` does not place the operation on the wrapper's own register (register=self.register, reg_type=self.reg_type)")
     for c in comps:
         g = c.generators[0]
         iv = _norm(g.target)
         kw = next((k.value for call in _ast.walk(c.elt) if isinstance(call, _ast.Call) for k in call.keywords if k.arg == "noise"), None)
         head = c.elt.func if isinstance(c.elt, _ast.Call) else None
+        # lock-step form: for op_class, op_noise in zip(self.operations, <noise list>)
+        if isinstance(g.iter, _ast.Call) and _norm(g.iter.func) == "zip" and len(g.iter.args) == 2 and _norm(g.iter.args[0]) == "self.operations" \
+                and isinstance(g.target, _ast.Tuple) and len(g.target.elts) == 2 and head is not None and _norm(head) == _norm(g.target.elts[0]):
+            from ..core import deref as _deref
+            nl = g.iter.args[1]
+            srcs = [a_.value for a_ in _ast.walk(fn) if isinstance(a_, _ast.Assign) and isinstance(nl, _ast.Name) and any(_norm(t_) == nl.id for t_ in a_.targets)] or [nl]
+            okn = all(_norm(s_) == "self.noise" or ("NoNoise" in _norm(s_) and "len(self.operations)" in _norm(s_)) for s_ in srcs)
+            if kw is None or _norm(kw) != _norm(g.target.elts[1]) or not okn:
+                bad.append(f"gate i does not receive noise i: the gates are built over `{_short(g.iter)}` with noise `{_short(kw) if kw is not None else 'missing'}`")
+            continue
         if head is not None and _norm(head) != f"self.operations[{iv}]":
             bad.append(f"gate i of the unwrapped list is built from `{_short(head)}` instead of self.operations[{iv}]")
         if kw is not None and "self.noise" in _norm(kw) and _norm(kw) != f"self.noise[{iv}]":
@@ -416,6 +440,7 @@ def rule_unwrap_source(ctx: Ctx) -> None:
 
 
 KNOCKOUTS = [
+    Knockout("unwrap-noise-carrier-without-reg-type", "graphiq/circuit/ops.py", sub_once("            noise = Identity(\n                register=self.register, reg_type=self.reg_type, noise=self.noise\n            )", "            noise = Identity(self.register, noise=self.noise)"), "unwrap.order", "own register"),
     Knockout("unwrap-skips-single-gate-wrappers", DAG, sub_once("                op_list = self.dag.nodes[node][\"op\"].unwrap()\n", "                op_list = self.dag.nodes[node][\"op\"].unwrap()\n                if len(op_list) < 2:\n                    continue\n"), "order.wrapper", "skipped"),
     Knockout("grouping-skips-identity-with-open-run", DAG, sub_once("                    else:\n                        gate_list.append(op.__class__)\n                        noise_list.append(op.noise)\n                    self.remove_op(node)", "                    elif isinstance(op, ops.Identity) and isinstance(op.noise, NoNoise):\n                        self.remove_op(node)\n                        continue\n                    else:\n                        gate_list.append(op.__class__)\n                        noise_list.append(op.noise)\n                    self.remove_op(node)"), "group.run-closed", "open run"),
     Knockout("unwrap-not-reversed", "graphiq/circuit/ops.py", sub_once("        return gates[::-1]\n\n    def openqasm_info(self):", "        return gates\n\n    def openqasm_info(self):"), "unwrap.order", "reversed"),
